@@ -219,11 +219,13 @@ Theorem hrr_second_hello_bound : forall cookie group c1 c2,
 Proof. exact hrr_second_ok_fixed. Qed.
 
 (* ---- tie: the code's transcript / sentinel / SCSV (server check AND client emission) / comparison sites
-   are the modelled ones ---- *)
+   are the modelled ones; every check's reaction is a DRIVEN alert (`for x in self._sendError(..): yield x`) or a
+   raise, and no generator method of these files is merely called as an expression statement ---- *)
 Theorem transcript_sites_as_modelled :
   hash_sites = expected_hash_sites /\ guard_sites = expected_guard_sites /\
   server_hello_sites = expected_server_hello_sites /\ guard_positions = expected_guard_positions /\
-  client_hello_sites = expected_client_hello_sites /\ client_suite_sites = expected_client_suite_sites.
+  client_hello_sites = expected_client_hello_sites /\ client_suite_sites = expected_client_suite_sites /\
+  undriven_generator_calls = nil.
 Proof. exact sites_as_expected. Qed.
 
 (* what the sentinel code DECIDES (extracted by executing it over its whole finite domain, so any equivalent
